@@ -8,6 +8,7 @@ from hl7apy.core import *
 from hl7apy.parser import *
 from hl7apy.factories import datatype_factory
 from hl7apy.exceptions import *
+from hl7apy.base_datatypes import ST, NM, SI
 
 CASES = {}
 
@@ -164,6 +165,107 @@ def c09_setitem_by_position():
     before = s.to_er7()
     s.children[3] = 'PID|||Z'[4:] if False else 'Z'
     return (before, s.to_er7()), True
+
+
+def _snap(e):
+    try:
+        enc = e.to_er7()
+    except Exception as x:
+        enc = 'EXC %s' % type(x).__name__
+    return enc, [c.name for c in e.children]
+
+
+def _attempt(target, f):
+    b = _snap(target)
+    try:
+        f()
+        r = 'no exception'
+    except Exception as x:
+        r = type(x).__name__
+    a = _snap(target)
+    return r, b, a, (r != 'no exception' and a != b)
+
+
+@case
+def c12_replace_child():
+    s = parse_segment('PID|1||A')
+    f = Field('PID_1', validation_level=VL.STRICT)
+    f.value = '2'
+    r = _attempt(s, lambda: setattr(s, 'pid_1', f))
+    return r[:3], r[3]
+
+
+@case
+def c12_half_attached_child():
+    s = Segment('PID')
+    f = Field('PID_1', validation_level=VL.STRICT)
+    r = _attempt(s, lambda: s.add(f))
+    return (r[0], 'child.parent is the refusing segment: %s' % (f.parent is s)), r[0] != 'no exception' and f.parent is s
+
+
+@case
+def c12_half_attached_traversal_child():
+    s = Segment('PID')
+    box = {}
+
+    def mk():
+        try:
+            Field('PID_1', validation_level=VL.STRICT, traversal_parent=s)
+        except Exception as e:
+            box['e'] = type(e).__name__
+            raise
+    r = _attempt(s, mk)
+    return r[:3], False     # the refused object is unreachable afterwards: nothing observable
+
+
+@case
+def c12_set_rejected_datatype_object():
+    s = Segment('PID', validation_level=VL.STRICT)
+    r = _attempt(s, lambda: setattr(s, 'pid_1', ST('x')))
+    return r[:3], r[3]
+
+
+@case
+def c12_datatype_change_populated():
+    f = Field('PID_3')
+    f.value = '1^2^3'
+    r = _attempt(f, lambda: setattr(f, 'datatype', 'CE'))
+    return r[:3], r[3]
+
+
+@case
+def c12_children_setter():
+    s = parse_segment('PID|1||A')
+    r = _attempt(s, lambda: setattr(s, 'children', [Field('PID_5'), Field('OBX_1')]))
+    return r[:3], r[3]
+
+
+@case
+def c12_ctor_field_with_parent():
+    seg = Segment('PID', validation_level=VL.STRICT)
+    r = _attempt(seg, lambda: Field('PID_5', datatype='ST', parent=seg, validation_level=VL.STRICT))
+    return r[:3], r[3]
+
+
+@case
+def c12_ctor_subcomponent_with_parent():
+    c = Component('CX_4', validation_level=VL.STRICT)
+    r = _attempt(c, lambda: SubComponent('HD_1', parent=c, validation_level=VL.STRICT, value='x' * 400))
+    return r[:3], r[3]
+
+
+@case
+def c12_ctor_component_override_with_parent():
+    f = Field('PID_3', validation_level=VL.STRICT)
+    r = _attempt(f, lambda: Component('CX_10', datatype='CE', parent=f, validation_level=VL.STRICT))
+    return r[:3], r[3]
+
+
+@case
+def c12_ctor_component_unknown_with_parent():
+    f = Field(datatype='varies', validation_level=VL.STRICT)
+    r = _attempt(f, lambda: Component(datatype='CX', parent=f, validation_level=VL.STRICT))
+    return r[:3], r[3]
 
 
 if __name__ == '__main__':
